@@ -102,7 +102,13 @@ func (g *Group) ShareOfKind(i int, k string, rng *rand.Rand) crypto.Signature {
 		return p.Add(ref.Order3E1(rng)).Compress()
 	default: // "m"
 		b := append([]byte(nil), g.Shares[i]...)
-		switch rng.Intn(5) {
+		switch rng.Intn(8) {
+		case 5:
+			return nil // no bytes at all: a literal nil
+		case 6:
+			return crypto.Signature{} // ... and an empty, non-nil one
+		case 7:
+			return b[:1]
 		case 3:
 			return b[:47] // one byte short
 		case 4:
